@@ -290,6 +290,54 @@ package ir
 //@   loop 2: invariant forall(k, 0, len(f.Params), nvun(f.Params[k]) ==> old(nvid(f.Params[k])) == lkP(f, k)) && forall(b, 0, range_at1 + 1, nvun(f.Blocks[b]) ==> old(nvid(f.Blocks[b])) == lkB(f, b, boxed(types.Void))) && forall(b int, j int, 0 <= b && b < range_at1 && 0 <= j && j < len(f.Blocks[b].Insts) ==> cnts(f.Blocks[b].Insts[j], boxed(types.Void)) ==> old(nvid(f.Blocks[b].Insts[j])) == lkI(f, b, j, boxed(types.Void))) && forall(j, 0, range_i, cnts(f.Blocks[range_at1].Insts[j], boxed(types.Void)) ==> old(nvid(f.Blocks[range_at1].Insts[j])) == lkI(f, range_at1, j, boxed(types.Void))) && forall(b, 0, range_at1, cnts(f.Blocks[b].Term, boxed(types.Void)) ==> old(nvid(f.Blocks[b].Term)) == lkT(f, b, boxed(types.Void))) ==> idwrites(0) == old(idwrites(0))
 //@ # ==== generated by /verif/tools/gen_ids_contracts.py: end ====
 
+//@ # ==== generated by /verif/tools/gen_gep_contracts.py: begin ====
+//@ # ---------------------------------------------------------------- C07 ---
+//@ # getIndex: the same contract for every copy (macros in specs/llvm_gep.spec).
+//@ func getIndex
+//@   props C07
+//@   requires index != nil && gkind(gunwrap(index)) && gwf(gunwrap(index))
+//@   assigns nothing
+//@   ensures !result.Scalable
+//@   ensures typeis(gunwrap(index), "*constant.Int") ==> result.HasVal && result.Val == gival(gunwrap(index)) && result.VectorLen == 0
+//@   ensures typeis(gunwrap(index), "*constant.ZeroInitializer") ==> result.HasVal && result.Val == 0 && result.VectorLen == 0
+//@   ensures typeis(gunwrap(index), "*constant.Vector") ==> result.VectorLen == len(cast(gunwrap(index), "*constant.Vector").Elems)
+//@   ensures typeis(gunwrap(index), "*constant.Vector") ==> (result.HasVal <==> (len(cast(gunwrap(index), "*constant.Vector").Elems) > 0 && gsplat(cast(gunwrap(index), "*constant.Vector"))))
+//@   ensures typeis(gunwrap(index), "*constant.Vector") && result.HasVal ==> result.Val == gival(cast(gunwrap(index), "*constant.Vector").Elems[0])
+//@   ensures !typeis(gunwrap(index), "*constant.Int") && !typeis(gunwrap(index), "*constant.ZeroInitializer") && !typeis(gunwrap(index), "*constant.Vector") ==> !result.HasVal && result.VectorLen == 0
+//@   loop 0: invariant 0 <= range_i && range_i <= len(index.Elems)
+//@   loop 0: invariant forall(j, 0, range_i, typeis(index.Elems[j], "*constant.Int") && gival(index.Elems[j]) == gival(index.Elems[0]))
+//@   loop 0: invariant range_i > 0 ==> val == gival(index.Elems[0])
+//@ # ==== generated by /verif/tools/gen_gep_contracts.py: end ====
+
+//@ # ---------------------------------------------------------------- C19 (WriteTo) ---
+//@ # n is exactly the number of bytes the writer accepted, err the first error it returned, and
+//@ # no Write happens after the first failure (ghost writer state, specs/stdlib.spec).
+//@ func (*Module).WriteTo
+//@   props C19
+//@   keeps written, wcalls, firsterr, wafter
+//@   opaque LLString, String, Ident
+//@   assigns caches, ghost(written), ghost(wcalls), ghost(firsterr), ghost(wafter), ghost(nvid), ghost(idwrites), ghost(mdid), ghost(held)
+//@   requires m != nil && w != nil && firsterr(w) == nil && wfGlobalIDs(m) && wfMetadataIDs(m)
+//@   requires forall(k, 0, len(m.TypeDefs), m.TypeDefs[k] != nil) && forall(k, 0, len(m.ComdatDefs), m.ComdatDefs[k] != nil) && forall(k, 0, len(m.Globals), m.Globals[k] != nil)
+//@   requires forall(k, 0, len(m.Aliases), m.Aliases[k] != nil) && forall(k, 0, len(m.IFuncs), m.IFuncs[k] != nil) && forall(k, 0, len(m.Funcs), m.Funcs[k] != nil)
+//@   requires forall(k, 0, len(m.AttrGroupDefs), m.AttrGroupDefs[k] != nil) && forall(k, 0, len(m.MetadataDefs), m.MetadataDefs[k] != nil)
+//@   requires forall(k, 0, len(m.UseListOrders), m.UseListOrders[k] != nil) && forall(k, 0, len(m.UseListOrderBBs), m.UseListOrderBBs[k] != nil)
+//@   panics when true
+//@   ensures n == written(w) - old(written(w)) && err == firsterr(w) && wafter(w) == old(wafter(w))
+//@   loop 0: invariant 0 <= range_i && fw != nil && fw.w == w && fw.size == written(w) - old(written(w)) && fw.err == firsterr(w) && wafter(w) == old(wafter(w))
+//@   loop 1: invariant 0 <= range_i && fw != nil && fw.w == w && fw.size == written(w) - old(written(w)) && fw.err == firsterr(w) && wafter(w) == old(wafter(w))
+//@   loop 2: invariant 0 <= range_i && fw != nil && fw.w == w && fw.size == written(w) - old(written(w)) && fw.err == firsterr(w) && wafter(w) == old(wafter(w))
+//@   loop 3: invariant 0 <= range_i && fw != nil && fw.w == w && fw.size == written(w) - old(written(w)) && fw.err == firsterr(w) && wafter(w) == old(wafter(w))
+//@   loop 4: invariant 0 <= range_i && fw != nil && fw.w == w && fw.size == written(w) - old(written(w)) && fw.err == firsterr(w) && wafter(w) == old(wafter(w))
+//@   loop 5: invariant 0 <= range_i && fw != nil && fw.w == w && fw.size == written(w) - old(written(w)) && fw.err == firsterr(w) && wafter(w) == old(wafter(w))
+//@   loop 6: invariant 0 <= range_i && fw != nil && fw.w == w && fw.size == written(w) - old(written(w)) && fw.err == firsterr(w) && wafter(w) == old(wafter(w))
+//@   loop 7: invariant 0 <= range_i && fw != nil && fw.w == w && fw.size == written(w) - old(written(w)) && fw.err == firsterr(w) && wafter(w) == old(wafter(w))
+//@   loop 8: invariant (cap(mdNames) == 0 || fresh(mdNames)) && fw != nil && fw.w == w && fw.size == written(w) - old(written(w)) && fw.err == firsterr(w) && wafter(w) == old(wafter(w))
+//@   loop 9: invariant 0 <= range_i && fw != nil && fw.w == w && fw.size == written(w) - old(written(w)) && fw.err == firsterr(w) && wafter(w) == old(wafter(w))
+//@   loop 10: invariant 0 <= range_i && fw != nil && fw.w == w && fw.size == written(w) - old(written(w)) && fw.err == firsterr(w) && wafter(w) == old(wafter(w))
+//@   loop 11: invariant 0 <= range_i && fw != nil && fw.w == w && fw.size == written(w) - old(written(w)) && fw.err == firsterr(w) && wafter(w) == old(wafter(w))
+//@   loop 12: invariant 0 <= range_i && fw != nil && fw.w == w && fw.size == written(w) - old(written(w)) && fw.err == firsterr(w) && wafter(w) == old(wafter(w))
+
 //@ # ==== generated by /verif/tools/gen_ir_contracts.py: begin ====
 //@ # ---------------------------------------------------------------- C06 / C14 ---
 //@ # Result types against LLVM's typing rules (macros in specs/llvm_types.spec). The cached type,
@@ -1618,51 +1666,3 @@ package ir
 //@   assigns nothing
 //@   ensures len(result) == 0
 //@ # ==== generated: end ====
-
-//@ # ==== generated by /verif/tools/gen_gep_contracts.py: begin ====
-//@ # ---------------------------------------------------------------- C07 ---
-//@ # getIndex: the same contract for every copy (macros in specs/llvm_gep.spec).
-//@ func getIndex
-//@   props C07
-//@   requires index != nil && gkind(gunwrap(index)) && gwf(gunwrap(index))
-//@   assigns nothing
-//@   ensures !result.Scalable
-//@   ensures typeis(gunwrap(index), "*constant.Int") ==> result.HasVal && result.Val == gival(gunwrap(index)) && result.VectorLen == 0
-//@   ensures typeis(gunwrap(index), "*constant.ZeroInitializer") ==> result.HasVal && result.Val == 0 && result.VectorLen == 0
-//@   ensures typeis(gunwrap(index), "*constant.Vector") ==> result.VectorLen == len(cast(gunwrap(index), "*constant.Vector").Elems)
-//@   ensures typeis(gunwrap(index), "*constant.Vector") ==> (result.HasVal <==> (len(cast(gunwrap(index), "*constant.Vector").Elems) > 0 && gsplat(cast(gunwrap(index), "*constant.Vector"))))
-//@   ensures typeis(gunwrap(index), "*constant.Vector") && result.HasVal ==> result.Val == gival(cast(gunwrap(index), "*constant.Vector").Elems[0])
-//@   ensures !typeis(gunwrap(index), "*constant.Int") && !typeis(gunwrap(index), "*constant.ZeroInitializer") && !typeis(gunwrap(index), "*constant.Vector") ==> !result.HasVal && result.VectorLen == 0
-//@   loop 0: invariant 0 <= range_i && range_i <= len(index.Elems)
-//@   loop 0: invariant forall(j, 0, range_i, typeis(index.Elems[j], "*constant.Int") && gival(index.Elems[j]) == gival(index.Elems[0]))
-//@   loop 0: invariant range_i > 0 ==> val == gival(index.Elems[0])
-//@ # ==== generated by /verif/tools/gen_gep_contracts.py: end ====
-
-//@ # ---------------------------------------------------------------- C19 (WriteTo) ---
-//@ # n is exactly the number of bytes the writer accepted, err the first error it returned, and
-//@ # no Write happens after the first failure (ghost writer state, specs/stdlib.spec).
-//@ func (*Module).WriteTo
-//@   props C19
-//@   keeps written, wcalls, firsterr, wafter
-//@   opaque LLString, String, Ident
-//@   assigns caches, ghost(written), ghost(wcalls), ghost(firsterr), ghost(wafter), ghost(nvid), ghost(idwrites), ghost(mdid), ghost(held)
-//@   requires m != nil && w != nil && firsterr(w) == nil && wfGlobalIDs(m) && wfMetadataIDs(m)
-//@   requires forall(k, 0, len(m.TypeDefs), m.TypeDefs[k] != nil) && forall(k, 0, len(m.ComdatDefs), m.ComdatDefs[k] != nil) && forall(k, 0, len(m.Globals), m.Globals[k] != nil)
-//@   requires forall(k, 0, len(m.Aliases), m.Aliases[k] != nil) && forall(k, 0, len(m.IFuncs), m.IFuncs[k] != nil) && forall(k, 0, len(m.Funcs), m.Funcs[k] != nil)
-//@   requires forall(k, 0, len(m.AttrGroupDefs), m.AttrGroupDefs[k] != nil) && forall(k, 0, len(m.MetadataDefs), m.MetadataDefs[k] != nil)
-//@   requires forall(k, 0, len(m.UseListOrders), m.UseListOrders[k] != nil) && forall(k, 0, len(m.UseListOrderBBs), m.UseListOrderBBs[k] != nil)
-//@   panics when true
-//@   ensures n == written(w) - old(written(w)) && err == firsterr(w) && wafter(w) == old(wafter(w))
-//@   loop 0: invariant 0 <= range_i && fw != nil && fw.w == w && fw.size == written(w) - old(written(w)) && fw.err == firsterr(w) && wafter(w) == old(wafter(w))
-//@   loop 1: invariant 0 <= range_i && fw != nil && fw.w == w && fw.size == written(w) - old(written(w)) && fw.err == firsterr(w) && wafter(w) == old(wafter(w))
-//@   loop 2: invariant 0 <= range_i && fw != nil && fw.w == w && fw.size == written(w) - old(written(w)) && fw.err == firsterr(w) && wafter(w) == old(wafter(w))
-//@   loop 3: invariant 0 <= range_i && fw != nil && fw.w == w && fw.size == written(w) - old(written(w)) && fw.err == firsterr(w) && wafter(w) == old(wafter(w))
-//@   loop 4: invariant 0 <= range_i && fw != nil && fw.w == w && fw.size == written(w) - old(written(w)) && fw.err == firsterr(w) && wafter(w) == old(wafter(w))
-//@   loop 5: invariant 0 <= range_i && fw != nil && fw.w == w && fw.size == written(w) - old(written(w)) && fw.err == firsterr(w) && wafter(w) == old(wafter(w))
-//@   loop 6: invariant 0 <= range_i && fw != nil && fw.w == w && fw.size == written(w) - old(written(w)) && fw.err == firsterr(w) && wafter(w) == old(wafter(w))
-//@   loop 7: invariant 0 <= range_i && fw != nil && fw.w == w && fw.size == written(w) - old(written(w)) && fw.err == firsterr(w) && wafter(w) == old(wafter(w))
-//@   loop 8: invariant (cap(mdNames) == 0 || fresh(mdNames)) && fw != nil && fw.w == w && fw.size == written(w) - old(written(w)) && fw.err == firsterr(w) && wafter(w) == old(wafter(w))
-//@   loop 9: invariant 0 <= range_i && fw != nil && fw.w == w && fw.size == written(w) - old(written(w)) && fw.err == firsterr(w) && wafter(w) == old(wafter(w))
-//@   loop 10: invariant 0 <= range_i && fw != nil && fw.w == w && fw.size == written(w) - old(written(w)) && fw.err == firsterr(w) && wafter(w) == old(wafter(w))
-//@   loop 11: invariant 0 <= range_i && fw != nil && fw.w == w && fw.size == written(w) - old(written(w)) && fw.err == firsterr(w) && wafter(w) == old(wafter(w))
-//@   loop 12: invariant 0 <= range_i && fw != nil && fw.w == w && fw.size == written(w) - old(written(w)) && fw.err == firsterr(w) && wafter(w) == old(wafter(w))
